@@ -63,9 +63,12 @@ def declarations(fname):
                 if len(ids) >= 2:                 # a type and a name: a parameter declaration, not an expression of a call
                     ps.append(('%d' % pos, expr.strip(), ids[-1]))      # keyed by position: a renamed parameter is the same parameter
         if ps:
-            k = seen.get(name, 0)
-            seen[name] = k + 1
-            res.append((name, k, ps))
+            # an overload is identified by its name and its number of parameters (then by order among equals): moving declarations around in
+            # the header does not change which default is which
+            nprm = len(split_top(params))
+            k = seen.get((name, nprm), 0)
+            seen[(name, nprm)] = k + 1
+            res.append(('%s/%d' % (name, nprm), k, ps))
     return res
 
 
